@@ -69,7 +69,26 @@ TDrained ==
   /\ SeqToSet(Ev.got) = delivered \ {0}
   /\ UNCHANGED <<vars, seen>>
 
-TSilent == /\ \E w \in 1..nh : Sort(w) \/ Pick(w) \/ Deliver(w) \/ Release(w) \/ Remove(w)
+\* A worker whose remaining peers all lack its height can only spin through availbTask (nil, back-off,
+\* retry) until the retry bound fails it; nothing another worker does changes that (peer heights are
+\* constant, the list is its own or the shared sorted array). The spin is taken in one silent step:
+\* validating it Pick by Pick multiplies the interleavings of several spinning workers by MaxRetry each.
+Spinning(w) ==
+  /\ pc[w] = "pick"
+  /\ Len(View(w)) > 0
+  /\ retry[w] + 1 <= MaxRetry
+  /\ \A i \in 1..Len(View(w)) : Beh(View(w)[i], w) = "lacks"
+
+SpinOut(w) ==
+  /\ Spinning(w)
+  /\ retry' = [retry EXCEPT ![w] = MaxRetry + 1]
+  /\ pc' = [pc EXCEPT ![w] = FailPc]
+  /\ UNCHANGED <<cfgv, arr, len, priv, lst, idx, num, cur, blk, phase, ncfg, failedH, redone, obs, act>>
+
+TSilent == /\ \E w \in 1..nh : \/ Sort(w)
+                               \/ (~Spinning(w) /\ Pick(w))
+                               \/ SpinOut(w)
+                               \/ Deliver(w) \/ Release(w) \/ Remove(w)
            /\ UNCHANGED <<l, seen>>
 
 TNext == TReset \/ TReply \/ TWaited \/ TRecheck \/ TDone \/ TDeliverEv \/ TDrained \/ TSilent
